@@ -69,7 +69,7 @@ func (h HTLC) Validate() error {
 	if h.ExpirationHeight == 0 {
 		return errorsmod.Wrapf(ErrInvalidExpirationHeight, "expire height cannot be 0")
 	}
-	if h.Timestamp == 0 {
+	if h.Transfer && h.Timestamp == 0 {
 		return errorsmod.Wrapf(ErrInvalidTimestamp, "timestamp cannot be 0")
 	}
 	if err := ValidateAmount(h.Transfer, h.Amount); err != nil {
